@@ -146,6 +146,9 @@ FOREIGN = {
     "graph_no_csv": lambda: (graph([[0, 1], [2, 3]]), {"output": {"to_csv": False, "write": False,
                                                                    "duplicate_last_bin": True}}),
     "hist3d": lambda: (_h3(), {"b": 2}),
+    # bins that are no numbers at all
+    "hist_str_bins": lambda: (histogram([0, 1, 2], [_fresh_str("ab"), _fresh_str("cd")]), {"a": 4}),
+    "hist_none_bins": lambda: histogram([0, 1, 2], [None, None]),
     "graph": lambda: graph([[0, 1], [2, 3]]),
     "pair_graph": lambda: (graph([[0, 1], [2, 3]]), {"g": 1}),
     # groups and selectors
@@ -264,6 +267,160 @@ def make_b(name):
 
 
 # ------------------------------------------------------------------------------------------------
+# selectors that decline a value by raising
+#
+# Selector documents: "raise_on_error is a boolean that sets whether in case of an exception the
+# selector raises that exception or returns False" and, for raise_on_error=False, "If an exception
+# occurs ... the result is False" - so a value on which the user's function raises is a value the
+# element does not select, whatever the type of the exception.  The axis: the elements that select
+# with a Selector (RunIf, MapBins, IterateBins) x the form in which the tolerant selector is given x
+# the type of the exception (every class of builtins and of lena.core derived from Exception, and a
+# class of the user's own).
+# ------------------------------------------------------------------------------------------------
+
+class OwnError(Exception):
+    """An exception class of the user's own, derived from Exception directly."""
+
+
+def _exception_classes():
+    import builtins
+    out = {}
+    for mod in (builtins, lena.core):
+        for name in sorted(vars(mod)):
+            obj = getattr(mod, name)
+            # (aliases such as IOError are listed once, under their own name)
+            if isinstance(obj, type) and issubclass(obj, Exception) and obj.__name__ == name:
+                out[name] = obj
+    out["OwnError"] = OwnError
+    return out
+
+
+DECLINE_EXCS = _exception_classes()
+DECLINE_EXC_NAMES = sorted(DECLINE_EXCS)
+
+# the classes that cannot be made from one message
+_EXC_ARGS = {
+    "UnicodeDecodeError": ("utf-8", b"\xff", 0, 1, "declined"),
+    "UnicodeEncodeError": ("ascii", u"\xe9", 0, 1, "declined"),
+    "UnicodeTranslateError": (u"\xe9", 0, 1, "declined"),
+    "ExceptionGroup": ("declined", [ValueError("inner")]),
+}
+
+
+def make_exc(name):
+    return DECLINE_EXCS[name](*_EXC_ARGS.get(name, ("declined",)))
+
+
+DECLINE_KINDS = ("RunIf", "MapBins", "IterateBins")
+
+# how the tolerant selector is handed to the element
+_DECLINE_FORMS = {
+    "RunIf": ["plain", "or", "and", "inner", "ctx"],
+    "MapBins": ["plain", "or", "and", "inner"],
+    "IterateBins": ["plain", "or", "and", "inner"],
+}
+
+
+def is_decline(cfg):
+    return cfg.startswith("decline:")
+
+
+def decline_parts(cfg):
+    _, form, excname = cfg.split(":")
+    return form, excname
+
+
+def decline_forms(kind):
+    return list(_DECLINE_FORMS.get(kind, ()))
+
+
+# Exception itself and the classes derived from it directly (the roots of the families)
+DECLINE_EXC_ROOTS = [n for n in DECLINE_EXC_NAMES
+                     if DECLINE_EXCS[n] is Exception or Exception in DECLINE_EXCS[n].__bases__]
+
+
+def decline_excs(form, tier):
+    """Exception classes with which a form of the tolerant selector is run in a tier: all of them
+    for the forms in which the user's test is called by the selector itself (plain: Selector, ctx:
+    SelectContext) and everywhere in the thorough tier; the roots of the families for the forms
+    that only hand raise_on_error on to such a selector (quick tier)."""
+    if tier == "thorough" or form in ("plain", "ctx"):
+        return list(DECLINE_EXC_NAMES)
+    return list(DECLINE_EXC_ROOTS)
+
+
+def decline_configs(kind, tier="thorough"):
+    """Names 'decline:<form>:<exception class>' of an element's configurations whose selector
+    declines by raising."""
+    return ["decline:%s:%s" % (f, e) for f in decline_forms(kind) for e in decline_excs(f, tier)]
+
+
+def _always(val):
+    return True
+
+
+def _int_bin(content):
+    return isinstance(lena.flow.get_data(content), int)
+
+
+# how often a test of a decline configuration has failed in this process (non-vacuity counter)
+DECLINED = [0]
+
+
+def _declining(positive, excname):
+    """A user's test that answers True for the values it is meant for and fails on all others."""
+    def test(val):
+        if positive(val):
+            return True
+        DECLINED[0] += 1
+        raise make_exc(excname)
+    return test
+
+
+def _tolerant(kind, form, excname):
+    """The selector of a decline configuration."""
+    Selector = lena.flow.Selector
+    if form == "ctx":
+        # the subcontext 'sel' is tested; a value without it is not selected (documented)
+        return lena.flow.SelectContext("sel", _declining(lambda sub: sub is True, excname),
+                                       raise_on_error=False)
+    test = _declining(_flag if kind == "RunIf" else _int_bin, excname)
+    if form == "plain":
+        return Selector(test, raise_on_error=False)
+    if form == "or":        # "its items are converted to selectors", raise_on_error used recursively
+        return Selector([test], raise_on_error=False)
+    if form == "and":
+        return Selector((_always, test), raise_on_error=False)
+    if form == "inner":     # a tolerant selector as an item of an ordinary one
+        return Selector([Selector(test, raise_on_error=False)])
+    raise ValueError(form)
+
+
+def _build_decline(kind, cfg):
+    form, excname = decline_parts(cfg)
+    sel = _tolerant(kind, form, excname)
+    if kind == "RunIf":
+        return lena.flow.RunIf(sel, _add1)
+    if kind == "MapBins":
+        return lena.structures.MapBins(lena.variables.Variable("add1", lambda x: x + 1),
+                                       select_bins=sel)
+    if kind == "IterateBins":
+        return lena.structures.IterateBins(select_bins=sel)
+    raise ValueError((kind, cfg))
+
+
+def decline_b_pool(kind):
+    """Foreign values of the decline configurations; those the selector is really asked about
+    (values with a context for RunIf, histograms for the bin elements) come first."""
+    if kind == "RunIf":
+        return ["pair_sel_false", "int", "pair_empty", "pair_sel_scalar", "pair_sel_other", "str",
+                "none", "tuple3", "pair_unrelated", "pair_output_scalar", "pair_disabled", "foreign",
+                "pair_foreign_xyz", "dict", "pair_hist", "str_csv"]
+    return ["hist_float_bins", "int", "hist_list_bins", "hist_str_bins", "hist_none_bins",
+            "pair_graph", "pair_empty", "str"]
+
+
+# ------------------------------------------------------------------------------------------------
 # configurations, elements, selected values (pool A), initial directory
 # ------------------------------------------------------------------------------------------------
 
@@ -338,6 +495,8 @@ def _shared_env():
 
 def build(kind, cfg):
     """A fresh element."""
+    if is_decline(cfg):
+        return _build_decline(kind, cfg)
     if kind == "ToCSV":
         if cfg == "default":
             return lena.output.ToCSV()
@@ -537,6 +696,9 @@ _A = {
 
 def a_pool(kind, cfg, tier="thorough"):
     """Names of the values an element configuration selects."""
+    if is_decline(cfg):
+        return {"RunIf": ["sel2", "sel3"], "MapBins": ["int_bins", "intctx_bins"],
+                "IterateBins": ["int_bins"]}[kind]
     if kind == "MapBins":
         return {"all": ["int_bins", "int_bins_ctx", "intctx_bins"],
                 "int": ["int_bins", "int_bins_ctx", "intctx_bins"],
